@@ -273,4 +273,139 @@ DecStsz(b, k) ==
   LET p == BodyLo(k)  ss == n32(b, p)  n == IntAt(b, p + 5, 4) IN
   [ version |-> Ver(b, k), flags |-> Flg(b, k), sample_size |-> ss, sample_count |-> n32(b, p + 4),
     sample_sizes |-> IF ss = <<>> THEN [i \in 1..n |-> n32(b, p + 8 + 4 * (i - 1))] ELSE <<>> ]
+-----------------------------------------------------------------------------
+(* movie fragments (8.8): mvex / mehd / trex, moof / mfhd / traf / tfhd / tfdt / trun *)
+FlagSet(flags, bit) == (flags \div bit) % 2 = 1
+Opt(o, enc(_)) == IF o.some THEN enc(o.v) ELSE <<>>
+
+EncMehd(v) == Full(MEHD, v.version, v.flags, ToBE(v.fragment_duration, TW(v.version)))
+CanMehd(b, k) == k.s - k.h >= 4 /\ Ver(b, k) \in {0, 1} /\ k.s - k.h >= 4 + TW(Ver(b, k))
+DecMehd(b, k) == [ version |-> Ver(b, k), flags |-> Flg(b, k),
+                   fragment_duration |-> NatAt(b, BodyLo(k) + 1, TW(Ver(b, k))) ]
+
+EncTrex(v) == Full(TREX, v.version, v.flags,
+                   ToBE(v.track_id, 4) \o ToBE(v.default_sample_description_index, 4)
+                   \o ToBE(v.default_sample_duration, 4) \o ToBE(v.default_sample_size, 4)
+                   \o ToBE(v.default_sample_flags, 4))
+CanTrex(b, k) == k.s - k.h >= 24
+DecTrex(b, k) == LET p == BodyLo(k) IN
+  [ version |-> Ver(b, k), flags |-> Flg(b, k), track_id |-> n32(b, p),
+    default_sample_description_index |-> n32(b, p + 4), default_sample_duration |-> n32(b, p + 8),
+    default_sample_size |-> n32(b, p + 12), default_sample_flags |-> n32(b, p + 16) ]
+
+EncMfhd(v) == Full(MFHD, v.version, v.flags, ToBE(v.sequence_number, 4))
+CanMfhd(b, k) == k.s - k.h >= 8
+DecMfhd(b, k) == [version |-> Ver(b, k), flags |-> Flg(b, k), sequence_number |-> n32(b, BodyLo(k))]
+
+\* tfhd: which optional fields are present is decided by the flags
+TFHD_BASE == 1   TFHD_SDI == 2   TFHD_DUR == 8   TFHD_SIZE == 16   TFHD_FLAGS == 32
+TFHD_EMPTY == 65536   TFHD_BASE_IS_MOOF == 131072
+EncTfhd(v) ==
+  Full(TFHD, v.version, v.flags,
+       ToBE(v.track_id, 4)
+       \o (IF FlagSet(v.flags, TFHD_BASE) THEN ToBE(v.base_data_offset.v, 8) ELSE <<>>)
+       \o (IF FlagSet(v.flags, TFHD_SDI) THEN ToBE(v.sample_description_index.v, 4) ELSE <<>>)
+       \o (IF FlagSet(v.flags, TFHD_DUR) THEN ToBE(v.default_sample_duration.v, 4) ELSE <<>>)
+       \o (IF FlagSet(v.flags, TFHD_SIZE) THEN ToBE(v.default_sample_size.v, 4) ELSE <<>>)
+       \o (IF FlagSet(v.flags, TFHD_FLAGS) THEN ToBE(v.default_sample_flags.v, 4) ELSE <<>>))
+TfhdLen(flags) == 8 + (IF FlagSet(flags, TFHD_BASE) THEN 8 ELSE 0) + (IF FlagSet(flags, TFHD_SDI) THEN 4 ELSE 0)
+                  + (IF FlagSet(flags, TFHD_DUR) THEN 4 ELSE 0) + (IF FlagSet(flags, TFHD_SIZE) THEN 4 ELSE 0)
+                  + (IF FlagSet(flags, TFHD_FLAGS) THEN 4 ELSE 0)
+CanTfhd(b, k) == k.s - k.h >= 4 /\ k.s - k.h >= TfhdLen(Flg(b, k))
+DecTfhd(b, k) ==
+  LET f == Flg(b, k)  p0 == BodyLo(k) + 4
+      p1 == p0 + (IF FlagSet(f, TFHD_BASE) THEN 8 ELSE 0)
+      p2 == p1 + (IF FlagSet(f, TFHD_SDI) THEN 4 ELSE 0)
+      p3 == p2 + (IF FlagSet(f, TFHD_DUR) THEN 4 ELSE 0)
+      p4 == p3 + (IF FlagSet(f, TFHD_SIZE) THEN 4 ELSE 0)
+  IN [ version |-> Ver(b, k), flags |-> f, track_id |-> n32(b, BodyLo(k)),
+       base_data_offset |-> IF FlagSet(f, TFHD_BASE) THEN Some(n64(b, p0)) ELSE None,
+       sample_description_index |-> IF FlagSet(f, TFHD_SDI) THEN Some(n32(b, p1)) ELSE None,
+       default_sample_duration |-> IF FlagSet(f, TFHD_DUR) THEN Some(n32(b, p2)) ELSE None,
+       default_sample_size |-> IF FlagSet(f, TFHD_SIZE) THEN Some(n32(b, p3)) ELSE None,
+       default_sample_flags |-> IF FlagSet(f, TFHD_FLAGS) THEN Some(n32(b, p4)) ELSE None ]
+
+EncTfdt(v) == Full(TFDT, v.version, v.flags, ToBE(v.base_media_decode_time, TW(v.version)))
+CanTfdt(b, k) == k.s - k.h >= 4 /\ Ver(b, k) \in {0, 1} /\ k.s - k.h >= 4 + TW(Ver(b, k))
+DecTfdt(b, k) == [ version |-> Ver(b, k), flags |-> Flg(b, k),
+                   base_media_decode_time |-> NatAt(b, BodyLo(k) + 1, TW(Ver(b, k))) ]
+
+TRUN_OFFSET == 1   TRUN_FIRST == 4   TRUN_DUR == 256   TRUN_SIZE == 512   TRUN_FLAGS == 1024   TRUN_CTS == 2048
+TrunPer(flags) == (IF FlagSet(flags, TRUN_DUR) THEN 4 ELSE 0) + (IF FlagSet(flags, TRUN_SIZE) THEN 4 ELSE 0)
+                  + (IF FlagSet(flags, TRUN_FLAGS) THEN 4 ELSE 0) + (IF FlagSet(flags, TRUN_CTS) THEN 4 ELSE 0)
+TrunHead(flags) == 8 + (IF FlagSet(flags, TRUN_OFFSET) THEN 4 ELSE 0) + (IF FlagSet(flags, TRUN_FIRST) THEN 4 ELSE 0)
+\* sample_cts entries are the raw 32-bit patterns (signed in version 1)
+EncTrun(v) ==
+  LET n == ToInt(v.sample_count) IN
+  Full(TRUN, v.version, v.flags,
+       ToBE(v.sample_count, 4)
+       \o (IF FlagSet(v.flags, TRUN_OFFSET) THEN BEs(v.data_offset.v, 4) ELSE <<>>)
+       \o (IF FlagSet(v.flags, TRUN_FIRST) THEN ToBE(v.first_sample_flags.v, 4) ELSE <<>>)
+       \o Flat([i \in 1..n |->
+             (IF FlagSet(v.flags, TRUN_DUR) THEN ToBE(v.sample_durations[i], 4) ELSE <<>>)
+             \o (IF FlagSet(v.flags, TRUN_SIZE) THEN ToBE(v.sample_sizes[i], 4) ELSE <<>>)
+             \o (IF FlagSet(v.flags, TRUN_FLAGS) THEN ToBE(v.sample_flags[i], 4) ELSE <<>>)
+             \o (IF FlagSet(v.flags, TRUN_CTS) THEN ToBE(v.sample_cts[i], 4) ELSE <<>>)]))
+CanTrun(b, k) == /\ k.s - k.h >= 8
+                 /\ k.s - k.h >= 4 + TrunHead(Flg(b, k)) - 4
+                 /\ SmallAt(b, BodyLo(k) + 1, 4)
+                 /\ IntAt(b, BodyLo(k) + 1, 4) * TrunPer(Flg(b, k)) <= k.s - k.h - TrunHead(Flg(b, k))
+DecTrun(b, k) ==
+  LET f == Flg(b, k)  n == IntAt(b, BodyLo(k) + 1, 4)
+      p0 == BodyLo(k) + 4
+      p1 == p0 + (IF FlagSet(f, TRUN_OFFSET) THEN 4 ELSE 0)
+      q  == p1 + (IF FlagSet(f, TRUN_FIRST) THEN 4 ELSE 0)
+      per == TrunPer(f)
+      oD == 0
+      oS == oD + (IF FlagSet(f, TRUN_DUR) THEN 4 ELSE 0)
+      oF == oS + (IF FlagSet(f, TRUN_SIZE) THEN 4 ELSE 0)
+      oC == oF + (IF FlagSet(f, TRUN_FLAGS) THEN 4 ELSE 0)
+      col(on, o) == IF on THEN [i \in 1..n |-> n32(b, q + per * (i - 1) + o)] ELSE <<>>
+  IN [ version |-> Ver(b, k), flags |-> f, sample_count |-> n32(b, BodyLo(k)),
+       data_offset |-> IF FlagSet(f, TRUN_OFFSET) THEN Some(s32(b, p0)) ELSE None,
+       first_sample_flags |-> IF FlagSet(f, TRUN_FIRST) THEN Some(n32(b, p1)) ELSE None,
+       sample_durations |-> col(FlagSet(f, TRUN_DUR), oD), sample_sizes |-> col(FlagSet(f, TRUN_SIZE), oS),
+       sample_flags |-> col(FlagSet(f, TRUN_FLAGS), oF), sample_cts |-> col(FlagSet(f, TRUN_CTS), oC) ]
+
+-----------------------------------------------------------------------------
+(* edit list (8.6.6) *)
+EncElst(v) == Table(ELST, v, IF v.version = 1 THEN 20 ELSE 12,
+                    LAMBDA e : ToBE(e.segment_duration, TW(v.version)) \o ToBE(e.media_time, TW(v.version))
+                               \o BE(e.media_rate, 2) \o BE(e.media_rate_fraction, 2))
+CanElst(b, k) == k.s - k.h >= 4 /\ Ver(b, k) \in {0, 1} /\ CanTable(b, k, IF Ver(b, k) = 1 THEN 20 ELSE 12)
+DecElst(b, k) ==
+  LET w == TW(Ver(b, k))  es == 2 * w + 4 IN
+  [ version |-> Ver(b, k), flags |-> Flg(b, k),
+    entries |-> [i \in 1..TableN(b, k) |->
+       [ segment_duration |-> NatAt(b, TableAt(k, es, i) + 1, w), media_time |-> NatAt(b, TableAt(k, es, i) + w + 1, w),
+         media_rate |-> u16(b, TableAt(k, es, i) + 2 * w), media_rate_fraction |-> u16(b, TableAt(k, es, i) + 2 * w + 2) ]] ]
+
+-----------------------------------------------------------------------------
+(* emsg (ISO/IEC 23009-1 5.10.3.3): version 0 strings first, version 1 numbers first *)
+EncEmsg(v) ==
+  Full(EMSG, v.version, v.flags,
+       IF v.version = 0
+       THEN v.scheme_id_uri \o <<0>> \o v.value \o <<0>> \o ToBE(v.timescale, 4)
+            \o ToBE(v.presentation_time_delta.v, 4) \o ToBE(v.event_duration, 4) \o ToBE(v.id, 4) \o v.message_data
+       ELSE ToBE(v.timescale, 4) \o ToBE(v.presentation_time.v, 8) \o ToBE(v.event_duration, 4) \o ToBE(v.id, 4)
+            \o v.scheme_id_uri \o <<0>> \o v.value \o <<0>> \o v.message_data)
+DecEmsg(b, k) ==
+  LET p == BodyLo(k)  hi == PayloadHi(k) IN
+  IF Ver(b, k) = 0 THEN
+     LET s1 == CStr(b, p, hi)  p2 == p + Len(s1) + 1  s2 == CStr(b, p2, hi)  q == p2 + Len(s2) + 1 IN
+     [ version |-> 0, flags |-> Flg(b, k), timescale |-> n32(b, q), presentation_time |-> None,
+       presentation_time_delta |-> Some(n32(b, q + 4)), event_duration |-> n32(b, q + 8), id |-> n32(b, q + 12),
+       scheme_id_uri |-> s1, value |-> s2, message_data |-> raw(b, q + 16, hi - (q + 16)) ]
+  ELSE
+     LET q == p + 20  s1 == CStr(b, q, hi)  p2 == q + Len(s1) + 1  s2 == CStr(b, p2, hi)  r == p2 + Len(s2) + 1 IN
+     [ version |-> 1, flags |-> Flg(b, k), timescale |-> n32(b, p), presentation_time |-> Some(n64(b, p + 4)),
+       presentation_time_delta |-> None, event_duration |-> n32(b, p + 12), id |-> n32(b, p + 16),
+       scheme_id_uri |-> s1, value |-> s2, message_data |-> raw(b, r, hi - r) ]
+
+-----------------------------------------------------------------------------
+(* iTunes-style metadata: udta / meta (FullBox, or QuickTime style without version/flags) /
+   hdlr / ilst / item / data.  data: type indicator (u32), locale (u32), payload *)
+EncData(v) == Box(DATA, BE(v.data_type, 4) \o Zeros(4) \o v.data)
+CanData(b, k) == k.s - k.h >= 8
+DecData(b, k) == [ data_type |-> n32(b, PayloadLo(k)), data |-> raw(b, PayloadLo(k) + 8, k.s - k.h - 8) ]
 =============================================================================
